@@ -168,7 +168,10 @@ def step (st : Option St) (toks : List String) : Option St × String :=
   match toks with
   | "exec.graph" :: rest =>
     let cfg := mkCfg rest
-    (some ⟨cfg, init cfg⟩, "ok")
+    let order := match Dag.statusOrder cfg.dag with
+      | some l => ",".intercalate (l.map toString)
+      | none => "X"
+    (some ⟨cfg, init cfg⟩, s!"ok order={order}")
   | ["exec.cancel"] =>
     match st with
     | none => (st, "bad-op")
